@@ -90,7 +90,6 @@ C16-c/patch.diff C16 Handlers
 C17-c/patch.diff C15 PipelineBatch
 C19-c/patch.diff C19 DestroyLeftovers
 C20-c/patch.diff C20 DMapCompaction
-reverts/R-51545c9.diff C10 Idle
 reverts/R-85a6273.diff C03 Balancer
 reverts/R-21d79c4.diff C20 MixedSizes
 reverts/R-c74f5cb.diff C20 ClosedFragment
